@@ -283,7 +283,7 @@ theorem interleave_replicate_zero (n : Nat) : interleave (List.replicate n (0, 0
     rw [List.replicate_succ, interleave, ih, this]
     simp [zeros, List.replicate_succ, toAcc]
 
-theorem foldl_addInto_zero (n : Nat) (cs : List Buf) (h : ∀ c ∈ cs, ∃ k, c = zeros k) (b : Buf) :
+theorem foldl_addInto_zero (cs : List Buf) (h : ∀ c ∈ cs, ∃ k, c = zeros k) (b : Buf) :
     cs.foldl addInto b = b := by
   induction cs generalizing b with
   | nil => rfl
@@ -296,24 +296,34 @@ theorem foldl_addInto_zero (n : Nat) (cs : List Buf) (h : ∀ c ∈ cs, ∃ k, c
 
 def accSum (as : List Acc) : Acc := as.foldl (· + ·) 0
 
+theorem acc_zero_add (a : Acc) : (0 : Acc) + a = a := BitVec.zero_add a
+theorem acc_add_zero (a : Acc) : a + (0 : Acc) = a := BitVec.add_zero a
+
 theorem foldl_add_acc (as : List Acc) (b : Acc) : as.foldl (· + ·) b = b + accSum as := by
   induction as generalizing b with
-  | nil => simp [accSum]
+  | nil => simp [accSum, acc_add_zero]
   | cons a as ih =>
     simp only [List.foldl, accSum]
-    rw [ih (b + a), ih (0 + a), BitVec.zero_add, BitVec.add_assoc]
-    rfl
+    rw [ih (b + a), ih (0 + a), acc_zero_add, BitVec.add_assoc]
 
 theorem accSum_cons (a : Acc) (as : List Acc) : accSum (a :: as) = a + accSum as := by
   simp only [accSum, List.foldl]
-  rw [foldl_add_acc, BitVec.zero_add]
+  rw [foldl_add_acc, acc_zero_add]
   rfl
 
-theorem accSum_toInt (as : List Acc) : (accSum as).toInt = ((as.map (·.toInt)).sum).bmod (2 ^ 32) := by
+theorem accSum_toInt (as : List Acc) :
+    (accSum as).toInt = ((as.map BitVec.toInt).sum).bmod (2 ^ 32) := by
   induction as with
   | nil => simp [accSum]
   | cons a as ih =>
     rw [accSum_cons, BitVec.toInt_add, ih]
     simp [List.sum_cons]
+
+theorem tdiv100_bounds (t : Int) (h : -12800 ≤ t ∧ t ≤ 12800) :
+    -128 ≤ t.tdiv 100 ∧ t.tdiv 100 ≤ 128 := by
+  rcases Int.le_total 0 t with ht | ht
+  · rw [Int.tdiv_eq_ediv_of_nonneg ht]; omega
+  · have : t = -(-t) := by omega
+    rw [this, Int.neg_tdiv, Int.tdiv_eq_ediv_of_nonneg (by omega)]; omega
 
 end Xmp.MixLinear
